@@ -226,7 +226,20 @@ pub fn gen_case(t: &mut Tape, feature_unimock: bool) -> Case {
             f.is_async = false;
         }
         f.hold_rc = no_send && f.is_async;
-        src.push_str(&format!("/*GEN*/ #[{macro_path}({attr})]\n{}\n", f.render("")));
+        // the fn may come out of a `macro_rules!` expansion in which one parameter name is written in the macro and another,
+        // spelled the same, is passed in from the call site: two different identifiers (hygiene) that only spans tell apart
+        let plain: Vec<usize> = f.params.iter().enumerate().filter(|(_, p)| p.pk == PK::Plain).map(|(i, _)| i).collect();
+        let hygiene = plain.len() >= 2 && t.chance(1, 6);
+        if hygiene {
+            let (i, j) = (plain[0], plain[plain.len() - 1]);
+            let passed = f.params[i].name.clone();
+            f.params[j].name = "$p".to_string();
+            src.push_str(&format!("macro_rules! __mk_the_fn {{ ($p:ident) => {{\n/*GEN*/ #[{macro_path}({attr})]\n{}\n}} }}\n__mk_the_fn!({passed});\n", f.render("")));
+            classes.push("fn_from_macro_rules_with_same_spelled_parameters");
+            nontrivial = true;
+        } else {
+            src.push_str(&format!("/*GEN*/ #[{macro_path}({attr})]\n{}\n", f.render("")));
+        }
         body.push_str(&call_pair(&f, "", 0, None));
         nontrivial |= fn_nontrivial(&f, &mut classes);
         summary = format!("#[{macro_path}({attr})] {}", f.signature());
